@@ -5,8 +5,8 @@
    it is only the stated input assumption wf (with entity categories in force the identity has no
    attribute named ""). *)
 From Coq Require Import String List Bool.
-From Verif Require Import Base.Str C10.Model C10.Spec C10.Proofs Base.Py C10.Source.
-From VerifGen Require Import C10Src.
+From Verif Require Import Base.Str C10.Model C10.Spec C10.Proofs Base.Py Base.Py2 C10.Source C10.Source2.
+From VerifGen Require Import C10Src C10Src2.
 Import ListNotations.
 
 (* released names are the user's names; every released value list is a sub-multiset of what the
@@ -107,3 +107,182 @@ Theorem c10_source_policy_get :
         end.
 Proof. exact src_policy_get_is_model. Qed.
 Print Assumptions c10_source_policy_get.
+
+(* ==== tie to the source TEXT, translator v2 (coq/gen/C10Src2.v is re-translated from /repo's current
+   source on every run by harness/py2coq2.py; operations Base/Py2.v; proofs C10/Source2.v).  Encodings:
+   enc_ava (dict name -> str | list of str), enc_strs, enc_ostr (str | None), enc_rq (RequestedAttribute as
+   to_dict() makes it), enc_orestr (compiled attribute_restrictions), enc_result (released dict /
+   MissingValue / other exception).  keys_ok = no key "__class__", keys_ascii = ASCII keys. ==== *)
+Open Scope string_scope.
+
+(* saml2.assertion._filter_values, whole function, list arguments *)
+Theorem c10_source2_filter_values : forall (vals vlist : list string) (must : bool),
+  src2_filter_values (enc_strs vals) (enc_strs vlist) (PBool must)
+  = if must
+    then match filter_values_must vals vlist with Some r => enc_strs r | None => PExc "MissingValue" end
+    else enc_strs (filter_values vals vlist).
+Proof. exact src2_filter_values_is_model. Qed.
+Print Assumptions c10_source2_filter_values.
+
+(* saml2.assertion._match, whole function *)
+Theorem c10_source2_match : forall (attr : string) (a : ava),
+  keys_ok a -> keys_ascii a -> all_ascii attr = true ->
+  src2_match (PStr attr) (enc_ava a) = enc_ostr (match_ attr a).
+Proof. exact src2_match_is_model. Qed.
+Print Assumptions c10_source2_match.
+
+(* filter_on_attributes._match_attr_name (nested function, whole) with the translated _match in the place
+   of _match; get_local_name (the attribute maps) is external: its answer is the model's datum ra_loc_l.
+   The caller's truth test `if _fn:` is the model's [tr]: match_attr_name d a = tr (or_ ..) by definition *)
+Theorem c10_source2_match_attr_name : forall (get_local_name : pyval -> pyval -> pyval) (d : reqattr),
+  get_local_name (PStr (lower (ra_name d))) (enc_ostr (ra_nf d)) = enc_ostr (ra_loc_l d) ->
+  forall a : ava,
+    keys_ok a -> keys_ascii a -> all_ascii (ra_name d) = true -> all_ascii (local_name d) = true ->
+    src2_match_attr_name get_local_name src2_match (enc_rq d) (enc_ava a)
+    = enc_ostr (or_ (match_ (local_name d) a) (match_ (lower (ra_name d)) a)).
+Proof. exact src2_match_attr_name_is_model. Qed.
+Print Assumptions c10_source2_match_attr_name.
+
+(* filter_attribute_value_assertions, whole function; `restr.match(val)` (the regex engine) is external.
+   list(set(..)) is first-occurrence order in the embedding (set_first), last-occurrence in the model
+   (dedup): fava_with .. dedup IS the model's fava, and the two de-duplications have the same elements *)
+Theorem c10_source2_filter_attribute_value_assertions :
+  forall (rmatch : string -> string -> bool) (re_match : pyval -> pyval -> pyval),
+    (forall r v, is_bad (re_match (PStr r) (PStr v)) = false) ->
+    (forall r v, py_truthy (re_match (PStr r) (PStr v)) = rmatch r v) ->
+    forall (a : ava) (R : option restr),
+      keys_ok a -> NoDup (keys a) -> keys_ascii a -> (forall R', R = Some R' -> keys_ok R') ->
+      src2_fava re_match (enc_ava a) (enc_orestr R) = enc_ava (fava_with rmatch set_first a R).
+Proof. exact src2_fava_is_model. Qed.
+Print Assumptions c10_source2_filter_attribute_value_assertions.
+
+Theorem c10_source2_fava_with_is_fava : forall rmatch a R, fava_with rmatch dedup a R = fava rmatch a R.
+Proof. exact fava_with_dedup. Qed.
+Print Assumptions c10_source2_fava_with_is_fava.
+
+Theorem c10_source2_set_order : forall l,
+  (forall x, In x (set_first l) <-> In x (dedup l)) /\ NoDup (set_first l) /\ NoDup (dedup l).
+Proof.
+  exact (fun l => conj (fun x => iff_trans (set_first_In l x) (iff_sym (dedup_In l x)))
+                       (conj (set_first_NoDup l) (dedup_NoDup l))).
+Qed.
+Print Assumptions c10_source2_set_order.
+
+(* Policy.filter, whole method on the path mdstore=None: the composition of the filters.  External calls
+   (each a hypothesis): ac_factory(), self.get_entity_categories, filter_attribute_value_assertions (any
+   value filter F on encodings), filter_on_attributes, self.get_fail_on_missing_requested,
+   self.get_attribute_restrictions.  pfilter_gen .. (fava rmatch) IS the model's pfilter *)
+Theorem c10_source2_policy_filter :
+  forall (ectab : list (string * ecmap)) (F : ava -> option restr -> ava)
+         (a : ava) (p : policy) (sp : string) (ecs : option (list string)) (ra : option string)
+         (req opt : list reqattr) (fo : option bool)
+         (ac_factory : pyval) (gec : pyval -> pyval -> pyval -> pyval -> pyval)
+         (favaF : pyval -> pyval -> pyval) (foaF : pyval -> pyval -> pyval -> pyval -> pyval -> pyval)
+         (get_failF get_arF : pyval -> pyval -> pyval) (cn : string),
+    is_bad ac_factory = false ->
+    (forall s, gec s (PStr sp) PNone (enc_oreqs req)
+               = match get_ec ectab (applicable p sp ra) ecs req with
+                 | Ok er => enc_restr (names_restr er) | _ => PExc cn end) ->
+    (forall x R, favaF (enc_ava x) (enc_orestr R) = enc_ava (F x R)) ->
+    (forall acs' fail, is_bad acs' = false ->
+       foaF (enc_ava a) (enc_oreqs req) (enc_oreqs opt) acs' (PBool fail)
+       = enc_result cn (filter_on_attributes a req opt fail)) ->
+    (forall s, get_failF s (PStr sp) = PBool (get_fail (applicable p sp ra))) ->
+    (forall s, get_arF s (PStr sp) = enc_orestr (get_ar (applicable p sp ra))) ->
+    forall store acs : pyval,
+      keys_ok a -> is_bad acs = false ->
+      src2_policy_filter ac_factory gec favaF foaF get_failF get_arF (enc_policy_self store acs)
+        (enc_ava a) (PStr sp) PNone (enc_oreqs req) (enc_oreqs opt) (enc_obool fo)
+      = enc_result cn (pfilter_gen ectab F a p sp ecs ra req opt fo).
+Proof. exact src2_policy_filter_is_model. Qed.
+Print Assumptions c10_source2_policy_filter.
+
+Theorem c10_source2_pfilter_gen_is_pfilter : forall rmatch ectab a p sp ecs ra req opt fo,
+  pfilter_gen ectab (fava rmatch) a p sp ecs ra req opt fo = pfilter rmatch ectab a p sp ecs ra req opt fo.
+Proof. exact pfilter_gen_model. Qed.
+Print Assumptions c10_source2_pfilter_gen_is_pfilter.
+
+(* Policy.restrict, whole method on the path metadata=None: Policy.filter (external here) is called with the
+   model's effective required / optional lists and the caller's fail_on_missing; the metadata store's
+   attribute_requirement / subject_id_requirement are external; enc_r: any encoding of RequestedAttribute
+   dicts on which == is the model's reqattr_eqb (enc_rq is one: c10_source2_reqattr_eq) *)
+Theorem c10_source2_policy_restrict :
+  forall enc_r : reqattr -> pyval,
+    (forall x y, pv_eq (enc_r x) (enc_r y) = Some (reqattr_eqb x y)) ->
+    forall (attribute_requirement subject_id_requirement : pyval -> pyval -> pyval)
+           (policy_filter : pyval -> pyval -> pyval -> pyval -> pyval -> pyval -> pyval)
+           (md : option mdinfo) (sp : string) (store : pyval),
+      is_bad store = false ->
+      py_truthy store = match md with Some _ => true | None => false end ->
+      (forall m, md = Some m ->
+         attribute_requirement store (PStr sp)
+         = PObj [("required", enc_rl enc_r (md_required m)); ("optional", enc_rl enc_r (md_optional m))]) ->
+      (forall m, md = Some m -> subject_id_requirement store (PStr sp) = enc_rl enc_r (subj_reqs m)) ->
+      forall acs v_ava v_fo : pyval,
+        is_bad v_ava = false -> is_bad v_fo = false ->
+        src2_policy_restrict attribute_requirement subject_id_requirement policy_filter
+          (enc_policy_self store acs) v_ava (PStr sp) PNone v_fo
+        = policy_filter (enc_policy_self store acs) v_ava (PStr sp)
+            (enc_orl enc_r (eff_required md)) (enc_orl enc_r (eff_optional md)) v_fo.
+Proof. exact src2_policy_restrict_is_model. Qed.
+Print Assumptions c10_source2_policy_restrict.
+
+Theorem c10_source2_reqattr_eq : forall x y, pv_eq (enc_rq x) (enc_rq y) = Some (reqattr_eqb x y).
+Proof. exact enc_rq_eq. Qed.
+Print Assumptions c10_source2_reqattr_eq.
+
+(* Policy.restrict (translated) calling Policy.filter (translated) answers what the model's [restrict] answers *)
+Theorem c10_source2_restrict_calls_filter :
+  forall (rmatch : string -> string -> bool) (ectab : list (string * ecmap))
+         (a : ava) (p : policy) (sp : string) (md : option mdinfo) (fo : option bool)
+         (store acs ac_factory : pyval)
+         (attribute_requirement subject_id_requirement : pyval -> pyval -> pyval)
+         (gec : pyval -> pyval -> pyval -> pyval -> pyval) (favaF : pyval -> pyval -> pyval)
+         (foaF : pyval -> pyval -> pyval -> pyval -> pyval -> pyval)
+         (get_failF get_arF : pyval -> pyval -> pyval) (cn : string),
+    is_bad store = false ->
+    py_truthy store = match md with Some _ => true | None => false end ->
+    (forall m, md = Some m ->
+       attribute_requirement store (PStr sp)
+       = PObj [("required", enc_rl enc_rq (md_required m)); ("optional", enc_rl enc_rq (md_optional m))]) ->
+    (forall m, md = Some m -> subject_id_requirement store (PStr sp) = enc_rl enc_rq (subj_reqs m)) ->
+    is_bad ac_factory = false ->
+    (forall s, gec s (PStr sp) PNone (enc_oreqs (eff_required md))
+               = match get_ec ectab (applicable p sp (eff_ra md)) (eff_ecs md) (eff_required md) with
+                 | Ok er => enc_restr (names_restr er) | _ => PExc cn end) ->
+    (forall x R, favaF (enc_ava x) (enc_orestr R) = enc_ava (fava rmatch x R)) ->
+    (forall acs' fail, is_bad acs' = false ->
+       foaF (enc_ava a) (enc_oreqs (eff_required md)) (enc_oreqs (eff_optional md)) acs' (PBool fail)
+       = enc_result cn (filter_on_attributes a (eff_required md) (eff_optional md) fail)) ->
+    (forall s, get_failF s (PStr sp) = PBool (get_fail (applicable p sp (eff_ra md)))) ->
+    (forall s, get_arF s (PStr sp) = enc_orestr (get_ar (applicable p sp (eff_ra md)))) ->
+    keys_ok a -> is_bad acs = false ->
+    src2_policy_restrict attribute_requirement subject_id_requirement
+      (fun self ava_ sp_ required optional fail_on_missing =>
+         src2_policy_filter ac_factory gec favaF foaF get_failF get_arF self ava_ sp_ PNone
+           required optional fail_on_missing)
+      (enc_policy_self store acs) (enc_ava a) (PStr sp) PNone (enc_obool fo)
+    = enc_result cn (restrict rmatch ectab a p sp md fo).
+Proof. exact src2_restrict_filter_is_model. Qed.
+Print Assumptions c10_source2_restrict_calls_filter.
+
+(* Policy.get_fail_on_missing_requested, whole method: key and default of the Policy.get call ... *)
+Theorem c10_source2_get_fail_on_missing_requested :
+  forall (policy_get : pyval -> pyval -> pyval -> pyval -> pyval) (self : pyval) (sp : string),
+    src2_get_fail policy_get self (PStr sp)
+    = policy_get self (PStr "fail_on_missing_requested") (PStr sp) (PBool true).
+Proof. exact src2_get_fail_is_model. Qed.
+Print Assumptions c10_source2_get_fail_on_missing_requested.
+
+(* ... and composed with Policy.get as translated by v1 (c10_source_policy_get): the model's get_fail *)
+Theorem c10_source2_get_fail_via_policy_get :
+  forall enc_sec : section -> list (string * pyval),
+    (forall s, enc_sec s = nil <-> s_bare s = true) ->
+    forall (reginfo : pyval -> pyval) (p : policy) (store : bool) (sp : string) (ra : option string),
+      reginfo (PStr sp) = C10.Source.enc_ra ra ->
+      (forall s, applicable p sp (if store then ra else None) = Some s ->
+                 sec_value enc_sec s "fail_on_missing_requested" (PBool true) = PBool (get_fail (Some s))) ->
+      src2_get_fail (src_policy_get reginfo) (enc_policy enc_sec p store) (PStr sp)
+      = PBool (get_fail (applicable p sp (if store then ra else None))).
+Proof. exact src2_get_fail_via_policy_get. Qed.
+Print Assumptions c10_source2_get_fail_via_policy_get.
